@@ -1821,7 +1821,7 @@ def run(ctx):
     spine_cases, spine_info = [], []
     corpus = load_corpus()
     for fmt in ("mei", "kern"):
-        todo = [d for d in corpus if d["fmt"] == fmt]
+        todo = [d for d in corpus if d["fmt"] == fmt and not d.get("xfmt")]
         ctx.count("corpus:%s" % fmt, len(todo))
         for i in range(n_docs[fmt]):
             w = {}
@@ -1948,9 +1948,11 @@ def run_export(ctx, n, ok):
     xcases, xdocs, scases, sinfo = [], [], [], []
     for fmt in ("mei", "kern"):
         nv = 0
-        for i in range(n[fmt]):
-            doc = gen_xdoc(ctx.rng, fmt)
-            if i % 7 == 3:
+        todo = [d for d in load_corpus() if d.get("xfmt") == fmt]
+        ctx.count("corpus:export:%s" % fmt, len(todo))
+        for i in range(n[fmt] + len(todo)):
+            doc = todo[i] if i < len(todo) else gen_xdoc(ctx.rng, fmt)
+            if i >= len(todo) and i % 7 == 3:
                 doc["xopts"]["fname"] = ctx.rng.choice(["export.v2", "a.b.c", "export.krn.final", "x.mei.bak"])
             r = export_roundtrip(doc, fmt)
             ctx.evaluations += 1
